@@ -501,23 +501,43 @@ func c05r5(c *Check) {
 	if n == 0 {
 		c.Hold("destination.Writer has no direct write", c.AtFn(w), "all data goes through the buffer")
 	}
-	// copies go to buf[n:]
+	// copies of caller data go to buf[n:] — wherever in the Writer's methods the copy is written
 	okCopy, nCopy := true, 0
-	allInstrs(w, func(in ssa.Instruction) {
-		cc, ok := isBuiltinCall(in, "copy")
-		if !ok {
-			return
+	for _, fn := range c.P.Funcs {
+		if fnPkg(fn) != fnPkg(w) || fn.Signature.Recv() == nil || fn.Signature.Recv().Type().String() != w.Signature.Recv().Type().String() {
+			continue
 		}
-		nCopy++
-		sl, ok := cc.Args[0].(*ssa.Slice)
-		if !ok || !isFieldLoad(sl.X, bufF) || sl.Low == nil || !isFieldLoad(sl.Low, nF) || sl.High != nil {
-			okCopy = false
-		}
-		if !derivedFrom(cc.Args[1], pPar, map[ssa.Value]bool{}) {
-			okCopy = false
-		}
-	})
-	c.Judge(okCopy && nCopy >= 1, "destination.Writer.Write appends at the fill position", c.AtFn(w), fmt.Sprintf("%d copies, all copy(b.buf[b.n:], p)", nCopy), "data is copied into the buffer at a position other than the current fill level: buffered bytes are overwritten or gaps are sent")
+		fn := fn
+		allInstrs(fn, func(in ssa.Instruction) {
+			cc, ok := isBuiltinCall(in, "copy")
+			if !ok {
+				return
+			}
+			sl, ok := cc.Args[0].(*ssa.Slice)
+			if !ok || !isFieldLoad(sl.X, bufF) {
+				return
+			}
+			// moving the unwritten remainder to the front (source is the buffer itself) is flush's business
+			if ssl, ok := cc.Args[1].(*ssa.Slice); ok && isFieldLoad(ssl.X, bufF) {
+				return
+			}
+			nCopy++
+			if sl.Low == nil || !isFieldLoad(sl.Low, nF) || sl.High != nil {
+				okCopy = false
+			}
+			fromParam := false
+			for _, par := range fn.Params {
+				if derivedFrom(cc.Args[1], par, map[ssa.Value]bool{}) {
+					fromParam = true
+				}
+			}
+			if !fromParam {
+				okCopy = false
+			}
+		})
+	}
+	_ = pPar
+	c.Judge(okCopy && nCopy >= 1, "destination.Writer.Write appends at the fill position", c.AtFn(w), fmt.Sprintf("%d copies of caller data into the buffer, all copy(b.buf[b.n:], p)", nCopy), "data is copied into the buffer at a position other than the current fill level: buffered bytes are overwritten or gaps are sent")
 	// flush writes buf[0:n]
 	fl := c.P.Func("destination", "*Writer", "flush")
 	okFl := false
